@@ -220,7 +220,7 @@ func main() {
 		"HTTP server; all others run with PipelineArgs.NewConsumerOverride and a consumer that decodes and confirms every chunk")
 	c.Assume("the probe set is computed from the base file, not from the variant; probe coverage of conditional blocks is measured with the real parser and transforms")
 	c.Assume("probe records stay far below the serializer's fixed buffer (2 x defs.InputLogMaxRecordBytes): oversized records are the subject of C07/C11; random " +
-		"configurations do not amplify field lengths beyond 4000 bytes for the same reason")
+		"configurations do not amplify field lengths beyond 2000 bytes for the same reason")
 	c.Assume("syntactically valid addresses that cannot be bound or resolved on this machine (port in use, unknown host) are environment, not configuration: not generated")
 	c.Set("variants_in_fixed_product", pl.fixedTotal)
 	c.Set("classes_in_fixed_product", pl.fixedClass)
